@@ -45,6 +45,14 @@ SYMMETRIC = {"is_disjoint"}
 def own_region(f, adt_suffix, sw_block, arms, vi):
     """Blocks of variant vi's arm, minus what nested matches on the same scrutinee give to other variants."""
     region = set(cfg.dominated_region(f, arms[vi]))
+    # or-patterns with bindings: alternatives share a body none of them dominates; add what this arm reaches before all arms have joined
+    reach = {vj: cfg.reachable(f, t_, cut_blocks={sw_block}) for vj, t_ in arms.items()}
+    if len(set(arms.values())) > 1:
+        groups = {}
+        for vj, t_ in arms.items():
+            groups.setdefault(t_, reach[vj])
+        common = set.intersection(*groups.values())
+        region |= (reach[vi] - common)
     for b, scrut, arms2, other in shape.variant_switches(f, adt_suffix):
         if b == sw_block or b not in region:
             continue
